@@ -611,6 +611,9 @@ def c19(acc):
     # (mixed text/element content included) read back as the same logical document and deserialize to equal values
     _, ps = mc_serde(acc, RT_TYPES + ["H07"], "rt", "MC_Serde-c19")
     serde_replay(acc, ps, "c19", "B:serde values x quote levels x {plain, 2 blanks, tab} x expand-empty (indentation must not touch content)")
+    # a SPACE OF TYPES: every struct assembled from the catalogue of field shapes (MC_Schema), executed by the schema-driven serde client
+    _, psch = mc_schema(acc, 2 if q else 3, "MC_Schema-c19")
+    serde_replay(acc, psch, "c19", "B:generated types x 4 values: indented output reads back as the model document and (on the domain) to equal values")
     return acc.finish()
 
 
@@ -660,6 +663,29 @@ CHECK_DEADLOCK FALSE
     return r, path
 
 
+def mc_schema(acc, maxfields, name, timeout=3000):
+    """MC_Schema: every struct type assembled from the catalogue of field shapes (<= maxfields fields) x four values."""
+    cfg = f"""SPECIFICATION Spec
+CONSTANTS
+  MaxFields = {maxfields}
+  Emit = TRUE
+INVARIANTS Inv_SerOk Inv_WellFormed Inv_Emit
+CHECK_DEADLOCK FALSE
+"""
+    tiny = f"SPECIFICATION Spec\nCONSTANTS\n  MaxFields = 1\n  Emit = FALSE\nINVARIANTS Inv_Witness\nCHECK_DEADLOCK FALSE\n"
+    rc = tlc("MC_Schema", tiny, name=name + "-wit", timeout=600, tags=("WITNESS",), xss="512m")
+    seen = set()
+    for w in rc.tagged.get("WITNESS", []):
+        seen |= set(json.loads(w) if isinstance(w, str) else w)
+    if {"rt", "nonrt", "ok"} - seen:
+        raise ToolError(f"vacuous model: never reached: {{'rt','nonrt','ok'}} - {seen}")
+    r = tlc("MC_Schema", cfg, name=name, timeout=timeout, xss="512m")
+    acc.add_tlc(r, f"A:MC_Schema MaxFields={maxfields} (types assembled from the field catalogue x 4 values)")
+    path = os.path.join(work_dir("beh-" + name), "behaviours.ndjson")
+    write_ndjson(path, r.tagged.get("REPLAY", []))
+    return r, path
+
+
 def serde_replay(acc, path, aspect, leg):
     summ, viol, _ = harness(["serde-replay", "--file", path, "--prop", acc.pid, "--out-dir", REPLAY_DIR, "--aspect", aspect, "--seed", SEED])
     acc.add_harness(summ, viol, leg)
@@ -692,6 +718,9 @@ def c06(acc):
     acc.trusted = SERDE_TRUST
     _, p = mc_serde(acc, RT_TYPES, "rt", "MC_Serde-rt")
     serde_replay(acc, p, "c06", "B:replay values x 18 option combinations (round trip)")
+    # a SPACE OF TYPES: every struct assembled from the catalogue of field shapes (MC_Schema), executed by the schema-driven serde client
+    _, psch = mc_schema(acc, 2 if q else 3, "MC_Schema-c06")
+    serde_replay(acc, psch, "c06", "B:generated types x 4 values x 18 option combinations (round trip on the documented domain)")
     serde_traces(acc, p, 4 if q else 1, "C:real serializer output parsed by the spec reader")
     return acc.finish()
 
@@ -706,6 +735,9 @@ def c13(acc):
     acc.trusted = SERDE_TRUST
     _, p = mc_serde(acc, RT_TYPES + ["H01", "H02", "H05", "H06", "H07"], "all", "MC_Serde-all")
     serde_replay(acc, p, "c13", "B:replay values incl. hostile (well-formedness, data carried)")
+    # a SPACE OF TYPES: every struct assembled from the catalogue of field shapes (MC_Schema), executed by the schema-driven serde client
+    _, psch = mc_schema(acc, 2 if q else 3, "MC_Schema-c13")
+    serde_replay(acc, psch, "c13", "B:generated types x 4 values (well-formed, legal names, read-back = model document)")
     serde_traces(acc, p, 6 if q else 1, "C:real serializer output parsed by the spec reader")
     return acc.finish()
 
@@ -725,6 +757,9 @@ def c14(acc):
     de_replay(acc, ps, "soup", "B:token soups: from_str vs from_reader (piece sizes 1,2,3,7)", extra=["--sizes", "1,2,3,7"])
     _, pr = mc_de(acc, "rewrite", 1, ["F02", "F07", "F16"] if q else RT_TYPES, "MC_De-c14rw")
     de_replay(acc, pr, "rewrite", "B:rewritten family documents: from_str vs from_reader (piece sizes 1,2,3,7)", extra=["--sizes", "1,2,3,7"])
+    # a SPACE OF TYPES: every struct assembled from the catalogue of field shapes (MC_Schema), executed by the schema-driven serde client
+    _, psch = mc_schema(acc, 2, "MC_Schema-c14")
+    serde_replay(acc, psch, "c14", "B:generated types: from_str vs from_reader under chunkings and presentations")
     # reader level: documents with a byte-order mark in arbitrary pieces, validated against XmlRead with SniffLen (deviation C14-1)
     trace_reader(acc, 200 if q else 2000, "doc,mut,corpus", "bom", sources="all", max_len=300 if q else 2000)
     return acc.finish()
@@ -766,14 +801,17 @@ def c07(acc):
                 "Also: content under a bound xsi:nil (mode nil) with Option-valued $value/$text targets, text-run shapes (mode textrun), a build without overlapped-lists. non-trivial = soups with >= 2 markup tokens")
     acc.trusted = SERDE_TRUST + ["a concrete panic is found by running the code; the spec supplies shapes and the justifying lemma"]
     _, p = mc_de(acc, "soup", 4 if q else 5, ["F02"], "MC_De-soup")
-    de_replay(acc, p, "soup", "B:token soups x all target types x from_str/from_reader", extra=["--mutate", 0 if q else 1])
+    # target types: the hand-written family + std shapes + 40 [120] types given as data (spread over MC_Schema's type space)
+    _, psch = mc_schema(acc, 2 if q else 3, "MC_Schema-c07")
+    sch = ["--schemas", psch, "--max-schemas", 40 if q else 120]
+    de_replay(acc, p, "soup", "B:token soups x all target types x from_str/from_reader", extra=["--mutate", 0 if q else 1] + sch)
     # text runs inside an element: text / blanks / CDATA / comment / DOCTYPE / reference / end tag, up to 6 [7] pieces
     _, pt = mc_de(acc, "textrun", 5 if q else 7, ["F02"], "MC_De-textrun")
-    de_replay(acc, pt, "soup", "B:text-run shapes inside an element x all target types")
+    de_replay(acc, pt, "soup", "B:text-run shapes inside an element x all target types", extra=sch)
     de_replay(acc, p, "soup", "B:token soups, quick-xml built without overlapped-lists", flavour="nool")
     # content inside an element carrying a bound xsi:nil="true" (treated as absent by the Option logic)
     _, pn = mc_de(acc, "nil", 4 if q else 5, ["F02"], "MC_De-nil")
-    de_replay(acc, pn, "soup", "B:content under xsi:nil x all target types")
+    de_replay(acc, pn, "soup", "B:content under xsi:nil x all target types", extra=sch)
     _, p2 = mc_de(acc, "rewrite", 1, ["F05", "F15", "F22"] if q else RT_TYPES, "MC_De-bases", timeout=3000)
     summ, viol, _ = harness(["de-mutate", "--file", p2, "--prop", acc.pid, "--out-dir", REPLAY_DIR, "--seed", SEED, "--per-doc", 3 if q else 20])
     acc.add_harness(summ, viol, "C:token-level mutations and every-byte truncations of serialized values")
